@@ -123,6 +123,9 @@ func CanonPairs(ps []Pair) string {
 	return b.String()
 }
 
+// CanonPairsList renders an ordered list of pairs (duplicates kept).
+func CanonPairsList(ps []Pair) string { return CanonPairs(ps) }
+
 func (s *MemStore) ResetLog() { s.Log = nil; s.calls = 0 }
 
 func (s *MemStore) Calls() int { return s.calls }
